@@ -27,18 +27,18 @@ def run(ctx):
     out = subprocess.run([exe], stdout=subprocess.PIPE, text=True, timeout=300).stdout.splitlines()
     readme = open(os.path.join(vlib.REPO, 'README.md')).read()
     facts = gen_params_facts.gen(out, readme)
-    baseline = open(FACTS).read() if os.path.exists(FACTS) else ''
-    changed = facts != baseline
-    try:
-        if changed:
-            with vlib.Lock('coq'): open(FACTS, 'w').write(facts)
-        ctx.prove()
-    finally:
-        if changed:
-            keep = ctx.replay_path('facts').replace('.json', '.v')
-            open(keep, 'w').write(facts)
-            with vlib.Lock('coq'): open(FACTS, 'w').write(baseline)
-            ctx.notes.append('facts differ from the committed baseline; this run\'s facts kept at ' + keep)
+    # the facts file is regenerated on every run (untracked; a committed baseline copy only serves setup)
+    old = open(FACTS).read() if os.path.exists(FACTS) else ''
+    changed = facts != old
+    if changed:
+        with vlib.Lock('coq'): open(FACTS, 'w').write(facts)
+    ctx.prove()
+    base = FACTS.replace('.v', '.baseline')
+    differs = (not os.path.exists(base)) or open(base).read() != facts
+    if differs:
+        keep = ctx.replay_path('facts').replace('.json', '.v'); open(keep, 'w').write(facts)
+        ctx.notes.append('facts differ from the committed baseline copy; this run\'s facts kept at ' + keep)
+    changed = differs
     # independent oracle over the dump
     seen = set()
     for line in out:
